@@ -490,6 +490,35 @@ def oracle_construct(pairs):
     return None
 
 
+ANYVALS = [None, 0, "", "x", ["l"], ("t",), False]
+
+
+def rand_any_history(rng, maxlen):
+    """Histories whose values are arbitrary Python objects (None, numbers, lists...): the list model does not care
+    what a value is, and neither may the implementation (e.g. a stored None is a value, not an absent key)."""
+    def pairs(n=3):
+        return [(rng.choice(KEYS), rng.choice(ANYVALS)) for _ in range(rng.randrange(n + 1))]
+    ops = []
+    for _ in range(rng.randrange(1, maxlen + 1)):
+        t = rng.choice(["set", "add", "del", "pop", "popitem", "setdefault", "update", "extend", "copy"])
+        k = rng.choice(KEYS + ["c"])
+        v = rng.choice(ANYVALS)
+        if t in ("set", "add", "setdefault"):
+            ops.append((t, k, v))
+        elif t == "del":
+            ops.append((t, k))
+        elif t == "pop":
+            has = rng.random() < 0.5
+            ops.append((t, k, has, rng.choice(ANYVALS) if has else None))
+        elif t == "update":
+            ops.append((t, pairs()))
+        elif t == "extend":
+            ops.append((t, pairs(), rng.choice(["list", "md", "iter"])))
+        else:
+            ops.append((t,))
+    return pairs(4), ops
+
+
 def oracle_novars():
     from webob.multidict import NoVars
     n = NoVars("why")
@@ -613,6 +642,18 @@ def run(ctx):
         if msg:
             ctx.fail("nested-concat", msg, {"class": "nested", "parts": ds}, True)
     ctx.oracle_count("nested", m // 4, m // 4)
+    r4 = ctx.sub_rng("oracle-anyvalues")
+    m4 = ctx.scale(2500, 40000)
+    for _ in range(m4):
+        init, ops = rand_any_history(r4, 12)
+        msg = oracle_history("md", init, ops)
+        if msg:
+            ctx.fail("multimap-model:md:non-str-values", msg, {"class": "md", "init": init, "ops": ops}, True)
+        ds = [[(r4.choice(KEYS), r4.choice(ANYVALS)) for _ in range(r4.randrange(0, 4))] for _ in range(r4.randrange(0, 4))]
+        msg = oracle_nested(ds)
+        if msg:
+            ctx.fail("nested-concat:non-str-values", msg, {"class": "nested", "parts": ds}, True)
+    ctx.oracle_count("any-values", 2 * m4, 2 * m4)
     for _ in range(ctx.scale(300, 3000)):
         pairs = rand_pairs(r3, 4)
         msg = oracle_construct(pairs)
